@@ -59,11 +59,11 @@ type shape struct {
 var tVar = reflect.TypeOf((*frontend.Variable)(nil)).Elem()
 
 type tagForm struct {
-	raw     string
-	name    string
-	vis     int
-	omit    bool
-	hasTag  bool
+	raw    string
+	name   string
+	vis    int
+	omit   bool
+	hasTag bool
 }
 
 func genTag(r *RNG, forceVis int) tagForm {
